@@ -14,6 +14,8 @@
 (***************************************************************************)
 EXTENDS NodeSizeContract, TraceIO
 
+CONSTANT Level      \* "statement": what is judged; "exact": the code's arithmetic to the byte (drift)
+
 Range(s) == {s[i] : i \in DOMAIN s}
 
 TraceInit == /\ l = 1
@@ -26,7 +28,8 @@ TraceReset == /\ IsEvent("reset")
                          scale |-> Ev.scale]
               /\ res' = 0
 
-TraceChoose == IsEvent("choose") /\ Choose(Ev.ok, Ev.pick, Range(Ev.listed))
+TraceChoose == IsEvent("choose") /\ (IF Level = "exact" THEN ChooseExact(Ev.ok, Ev.pick, Range(Ev.listed))
+                                                         ELSE Choose(Ev.ok, Ev.pick, Range(Ev.listed)))
 
 TraceNext == TraceReset \/ TraceChoose
 
